@@ -1630,6 +1630,11 @@ func isInvalid(t types.Type) bool {
 
 func (ex *Exec) builtin(fr *frame, b *ssa.Builtin, cc *ssa.CallCommon, args []Value) Value {
 	switch b.Name() {
+	case "ssa:wrapnilchk":
+		if p, ok := args[0].(VPtr); ok && p.O == nil {
+			panic(goPanic{"value method called using nil pointer"})
+		}
+		return args[0]
 	case "len":
 		switch x := args[0].(type) {
 		case VSlice:
